@@ -25,7 +25,7 @@ pub open spec fn with_lp(p: PairInfoRaw, lp: Seq<u8>, q: PairInfoRaw) -> bool {
 //%fn contracts/halo-pair/src/contract.rs | - | migrate
 //%%sig
     ensures
-        /*[C14,C07,C03 pmigrate.no-write]*/ *final(deps.storage) == *old(deps.storage),
+        /*[C14,C07,C03,C06,C12,C10 pmigrate.no-write]*/ *final(deps.storage) == *old(deps.storage),
         /*[C14,C07,C03 pmigrate.no-messages]*/ r is Ok ==> r->Ok_0.msgs().len() == 0,
 //%end
 
@@ -52,6 +52,6 @@ pub open spec fn self_report_answer(s: Storage, a: PairInfo) -> bool { s.pair_in
 //%%sig
     ensures
         /*[C16,C17 pquery.dispatch.pair]*/ r is Ok ==> (msg matches QueryMsg::Pair {} ==> exists|a: PairInfo| #![trigger bin_of(a)] r->Ok_0 == bin_of(a) && self_report_answer(*deps.storage, a)),
-        /*[C12 pquery.dispatch.simulation]*/ r is Ok ==> (msg matches QueryMsg::Simulation { offer_asset } ==> exists|a: SimulationResponse| #![trigger bin_of(a)] r->Ok_0 == bin_of(a) && sim_answer(*deps.storage, deps.querier.world(), offer_asset, a)),
+        /*[C12,C13 pquery.dispatch.simulation]*/ r is Ok ==> (msg matches QueryMsg::Simulation { offer_asset } ==> exists|a: SimulationResponse| #![trigger bin_of(a)] r->Ok_0 == bin_of(a) && sim_answer(*deps.storage, deps.querier.world(), offer_asset, a)),
         /*[C12 pquery.dispatch.reverse-simulation]*/ r is Ok ==> (msg matches QueryMsg::ReverseSimulation { ask_asset } ==> exists|a: ReverseSimulationResponse| #![trigger bin_of(a)] r->Ok_0 == bin_of(a) && rev_answer(*deps.storage, deps.querier.world(), ask_asset, a)),
 //%end
